@@ -413,6 +413,16 @@ fn spawn_server() -> Server {
     Server { child, stdin, stdout }
 }
 
+/// Starts this thread's fork server now (instead of lazily at the first worker run).
+pub fn ensure_server() {
+    SERVER.with(|s| {
+        let mut g = s.borrow_mut();
+        if g.is_none() {
+            *g = Some(spawn_server());
+        }
+    });
+}
+
 /// Runs the worker on `root`; `work` is a scratch directory for script/results/trace files.
 pub fn run_worker(root: &Path, work: &Path, tag: &str, script: &Script, mode: ShimMode, timeout: Duration) -> RunOut {
     use std::io::{BufRead, Write};
